@@ -57,6 +57,11 @@ class FlowAxesConversion:
                 # samples): the number of samples is the rounded-up size everywhere
                 if a != b:
                     yield {"axes": a, "to_axes": b, "grids": "fractional-size", "cls": "FlowField"}
+        # fields built without an explicit representation: the normalised-cube convention of their grid's align_corners flag
+        for cls in ("FlowFields", "FlowField"):
+            for ac in (True, False):
+                for b in ("world", "grid"):
+                    yield {"axes": "default", "to_axes": b, "grids": "shared", "cls": cls, "align_corners": ac}
 
     def run(self, case, K):
         from deepali.core.grid import Axes
@@ -70,6 +75,8 @@ class FlowAxesConversion:
             g0, _ = make_grid(K, "g", D, sizes=(7, 5))
             g1 = g0.downsample()
             gs1 = spec_of(K, g1, N=[E.const(n) for n in SIZE])
+        elif a == "default":
+            g1, gs1 = make_grid(K, "g", D, sizes=SIZE, align_corners=case["align_corners"])
         else:
             g1, gs1 = make_grid(K, "g", D, sizes=SIZE)
         if case["grids"] == "per-item":
@@ -79,7 +86,11 @@ class FlowAxesConversion:
             g2, gs2 = g1, gs1
         N = 2 if case["cls"] == "FlowFields" else 1
         ev = K.reals("v", (N, D) + SHAPE)
-        if case["cls"] == "FlowFields":
+        if a == "default":
+            f = FlowFields(K.tensor(ev), [g1, g2]) if case["cls"] == "FlowFields" else FlowField(K.tensor(ev[0]), g1)
+            a = "cube_corners" if case["align_corners"] else "cube"
+            K.ensure("default-axes", E.bconst(f.axes() == Axes(a)), text=Q10A + " [a field built without axes is in the cube convention of its grid's align_corners flag]")
+        elif case["cls"] == "FlowFields":
             f = FlowFields(K.tensor(ev), [g1, g2], Axes(a))
         else:
             f = FlowField(K.tensor(ev[0]), g1, Axes(a))
